@@ -58,23 +58,23 @@ pub fn registry(property: &str) -> Option<CheckSpec> {
         }
     };
     match property {
-        "C02" => Some(spec("C02", "exploration", 600_000, 8_000_000, vec![
+        "C02" => Some(spec("C02", "exploration", 600_000, 10_000_000, vec![
             "FeeParams is driven through the operations and by direct calls of apply_fees / fee on params objects built from the simulated configuration with simulated amounts; LiquidationFeeParams::fee through liquidations and PositionExt::position_fees(.., true) on simulated positions.".into(),
             "Reports do not say which balance-change kind was charged, so a report is accepted if it equals the reference for either factor.".into(),
         ])),
-        "C03" => Some(spec("C03", "exploration", 600_000, 8_000_000, vec![
+        "C03" => Some(spec("C03", "exploration", 600_000, 10_000_000, vec![
             "Pool balance is measured at mid prices on the requested USD deltas, as the impact computation itself defines it.".into(),
             "Exact reference impacts (virtual inventory clause) exist only for unit-multiple exponents 0x..8x; fractional exponents are exercised but only the sign and round-trip oracles apply to them.".into(),
             "Round-trip tolerance is 2 units of 10^-20 USD (truncation of four fixed-point products).".into(),
         ])),
-        "C04" => Some(spec("C04", "fault_enumeration", 300_000, 4_000_000, vec![
+        "C04" => Some(spec("C04", "fault_enumeration", 300_000, 6_000_000, vec![
             "Fault points are the fallible storage calls the swap makes on SimMarket (pool accessors, parameter getters, pool arithmetic); a *_mut accessor is a fault point only if the pool kind was not read successfully before in the operation (trait contract), and a failed pool kind stays unavailable for the rest of the operation.".into(),
             "Enumeration is exhaustive over the fault points of each sampled swap, not over swaps.".into(),
         ])),
-        "C05" => Some(spec("C05", "exploration", 600_000, 8_000_000, vec![
+        "C05" => Some(spec("C05", "exploration", 600_000, 10_000_000, vec![
             "Funded impact is read from the swap impact pool deltas and valued at the maximum prices (the most generous reading of the statement).".into(),
         ])),
-        "C06" => Some(spec("C06", "exploration", 600_000, 8_000_000, vec![
+        "C06" => Some(spec("C06", "exploration", 600_000, 10_000_000, vec![
             "Round trips are forks at points of simulated histories; the fork first settles the fee state (distribute, borrowing, funding) like the store does before every deposit and withdrawal.".into(),
             "Per-token value uses the code's public pool_value under the valuation the leg itself uses; the cross valuations are checked only without price spread and without a binding pnl cap.".into(),
         ])),
